@@ -30,6 +30,22 @@ From MM Require Import Lib.Bytes Model.Tunnel.
 Import ListNotations.
 Local Open Scope N_scope.
 
+(** * Stream frames along a path of transits *)
+
+(** [Agent.handleStreamData] (and the UDP / ICMP counterparts): the frame for
+    the next hop carries [frame.Payload] itself. *)
+Definition transit_forward (x : blob) : blob := x.
+
+(** [relay n frames]: the views of the [n] transits, ingress side first, and
+    what the last one hands to the exit *)
+Fixpoint relay (n : nat) (frames : list blob) : list (list blob) * list blob :=
+  match n with
+  | O => ([], frames)
+  | S n' =>
+      let '(views, out) := relay n' (map transit_forward frames) in
+      (frames :: views, out)
+  end.
+
 (** * Datagram associations *)
 
 Inductive dgop :=
